@@ -264,6 +264,9 @@ def Spiral.increment (s : Spiral) : Spiral :=
     else s
   { s1 with step := s1.step + 1, cur := s1.cur + s1.dir }   -- ++step_; cur_ += dir_
 
+/-- `spiral_iterator::equal`: `cur_ == other.cur_` — neither `max_dist_` nor the direction / step state is compared -/
+def Spiral.equal (a b : Spiral) : Bool := decide (a.cur = b.cur)
+
 /-- `for (it = begin; it != end; ++it) emit(*it)`; `equal` compares `cur_` only -/
 def spiralLoop (endCur : Pos) : Nat → Spiral → M (List Pos)
   | 0, _ => .error .fuel
